@@ -212,3 +212,8 @@ def run(ctx):
         ctx.case(key=('chi2', kind), nontrivial=True)
         ctx.check(cnt[~mask].sum() == 0 and chi2 < dof + 8 * np.sqrt(2 * dof) + 30, ('sample' if kind == 'lin' else 'sample_square') + ':chi2',
                   'goodness of fit: chi2 = %.1f with %d dof; draws at zero-weight entries: %d' % (chi2, dof, int(cnt[~mask].sum())))
+
+
+def selftest(ctx):
+    from . import selftest as ST
+    return ST.sampler(ctx)
